@@ -80,6 +80,9 @@ pub fn finish() -> ! {
         }
         std::thread::sleep(std::time::Duration::from_millis(1));
     }
+    // one more run of the heap oracle on the final state (the only one under NoGC)
+    shadow::on_pause_end();
+    world::with_report("C01", |r| r.count("final_state_checks", 1));
     let c = &w.counters;
     let summary = J::obj(vec![
         ("config", J::s(w.cfg.describe())),
